@@ -98,6 +98,32 @@ def gql_type(t: T, ctx: Ctx, inp: bool, nullable: bool = False) -> str:
     raise Unspecified(repr(t))
 
 
+def default_is_valid_input(ft: T, f, ctx: Ctx) -> bool:
+    """reference models only: is the serialized default accepted back by deserialization (same aliaser)"""
+    try:
+        dv = f.default_value
+        if f.factory is not None and callable(dv):
+            dv = dv()
+        so = SOpts(aliaser=ctx.aliaser, env=ctx.env, tvars=ctx.tvars)
+        img = image(ft, dv, so)
+        r = conform(ft, json.loads(json.dumps(_plain(img))), ctx)
+        return r is UNSPEC or r.ok
+    except Exception:
+        return True
+
+
+def _plain(x):
+    from ..refmodel.ser import SetImg
+
+    if isinstance(x, SetImg):
+        return [_plain(v) for v in x.items]
+    if isinstance(x, list):
+        return [_plain(v) for v in x]
+    if isinstance(x, dict):
+        return {k: _plain(v) for k, v in x.items()}
+    return x
+
+
 def expected_fields(ob: Obj, ctx: Ctx, inp: bool) -> Dict[str, str]:
     """field name (camelCase aliaser) -> type expression, flattened fields merged"""
     c2 = Ctx(**{**ctx.__dict__, "aliaser": "camel"})
@@ -113,6 +139,10 @@ def expected_fields(ob: Obj, ctx: Ctx, inp: bool) -> Dict[str, str]:
         if inp:
             # non-null unless Optional / Undefined or a None / Undefined default (a serialisable default keeps `!`)
             nullable = f.optional and (f.default_value is None or f.default_value is UNDEF)
+            if f.optional and not nullable and not default_is_valid_input(ft, f, c2):
+                # a default whose serialization is not an acceptable input (serialized-only members, conversions,
+                # constraints) cannot be declared: same treatment as an unserialisable default
+                nullable = True
         else:
             nullable = f.none_as_undefined or has_alt(f.type, "undefined", ctx)
         out[field_ext_name(ob, f, c2)] = gql_type(ft, ctx, inp, nullable)
@@ -380,6 +410,18 @@ def a_obj_default(a: Pt = Pt(5)) -> int: CALLS.append(("a_obj_default", a)); ret
 def a_list_default(a: List[int] = []) -> int: CALLS.append(("a_list_default", a)); return len(a)
 def a_undefined(a: Union[int, UndefinedType] = Undefined) -> bool: CALLS.append(("a_undefined", a)); return a is Undefined
 def a_enum_default(c: Color = Color.RED) -> Color: CALLS.append(("a_enum_default", c)); return c
+class StrColor(str, Enum):
+    RED = "r"
+    BLUE = "b"
+def a_str_enum(c: StrColor = StrColor.RED) -> StrColor: CALLS.append(("a_str_enum", c)); return c
+from apischema.conversions import Conversion as _Conversion
+def _int_of(s: str) -> int: return int(s)
+def a_conv_default(x: Annotated[int, conversion(deserialization=_int_of)] = 3) -> int: CALLS.append(("a_conv_default", x)); return x
+@dataclass
+class ConvIn:
+    x: int = field(default=3, metadata=conversion(deserialization=_int_of))
+    y: Annotated[int, schema(min=5)] = 1   # a default which is not a valid input
+def in_conv_default(arg: ConvIn) -> int: CALLS.append(("in_conv_default", arg)); return arg.x + arg.y
 def a_two(a: int, b: str = "x") -> str: CALLS.append(("a_two", a, b)); return b * a
 def a_constrained(a: Annotated[int, schema(min=0, max=3)]) -> int: CALLS.append(("a_constrained", a)); return a
 
@@ -493,7 +535,7 @@ def world_checks(st: infra.Stats):
     def viol(kind, what, **sig):
         st.violation({"label": "world", "signature": dict({"kind": kind}, **sig), "what": what[:500]})
 
-    ops = ["a_required", "a_default", "a_none", "a_opt_default", "a_opt_list", "a_wide_default", "a_info_first", "a_info_mid", "a_unser", "a_obj_default", "a_list_default", "a_undefined", "a_enum_default", "a_two", "a_constrained", "in_list_default", "in_numeric_defaults", "by_id"]
+    ops = ["a_required", "a_default", "a_none", "a_opt_default", "a_opt_list", "a_wide_default", "a_info_first", "a_info_mid", "a_unser", "a_obj_default", "a_list_default", "a_undefined", "a_enum_default", "a_str_enum", "a_conv_default", "in_conv_default", "a_two", "a_constrained", "in_list_default", "in_numeric_defaults", "by_id"]
     built = {}
     for name in ops:
         st.case("world", "signature", name)
@@ -518,6 +560,11 @@ def world_checks(st: infra.Stats):
         "a_list_default": {"a": "[Int!]!"},
         "a_undefined": {"a": "Int"},
         "a_enum_default": {"c": "Color!"},
+        "a_str_enum": {"c": "StrColor!"},
+        # the default is a value of the parameter, the argument is the source of its conversion: no default can be
+        # declared, the Python one is used when the argument is omitted
+        "a_conv_default": {"x": "String"},
+        "in_conv_default": {"arg": "ConvInInput!"},
         "a_two": {"a": "Int!", "b": "String!"},
         "a_constrained": {"a": "Int!"},
         "in_list_default": {"arg": "WithListDefaultInput!"},
@@ -570,6 +617,12 @@ def world_checks(st: infra.Stats):
         ("a_undefined", "{ aUndefined }", {"aUndefined": True}, ("a_undefined", apischema.Undefined)),
         ("a_enum_default", "{ aEnumDefault }", {"aEnumDefault": "RED"}, ("a_enum_default", m.Color.RED)),
         ("a_enum_default", "{ aEnumDefault(c: BLUE) }", {"aEnumDefault": "BLUE"}, ("a_enum_default", m.Color.BLUE)),
+        ("a_conv_default", "{ aConvDefault }", {"aConvDefault": 3}, ("a_conv_default", 3)),
+        ("a_conv_default", '{ aConvDefault(x: "4") }', {"aConvDefault": 4}, ("a_conv_default", 4)),
+        ("in_conv_default", "{ inConvDefault(arg: {}) }", {"inConvDefault": 4}, ("in_conv_default", m.ConvIn(3, 1))),
+        ("in_conv_default", '{ inConvDefault(arg: {x: "4", y: 6}) }', {"inConvDefault": 10}, ("in_conv_default", m.ConvIn(4, 6))),
+        ("a_str_enum", "{ aStrEnum }", {"aStrEnum": "RED"}, ("a_str_enum", m.StrColor.RED)),
+        ("a_str_enum", "{ aStrEnum(c: BLUE) }", {"aStrEnum": "BLUE"}, ("a_str_enum", m.StrColor.BLUE)),
         ("a_two", "{ aTwo(a: 2) }", {"aTwo": "xx"}, ("a_two", 2, "x")),
         ("a_constrained", "{ aConstrained(a: 2) }", {"aConstrained": 2}, ("a_constrained", 2)),
         ("a_constrained", "{ aConstrained(a: 9) }", None, None),
